@@ -39,7 +39,7 @@ def _one(mon, mode, work, shard, nshards, histories, maxlen, flavour, extra, val
         if t.strip():
             import re
             for blk in re.split(r'(?m)^==\d+== \n', t):
-                m = re.search(r'==\d+== ([A-Z][^\n]*)\n', blk)
+                m = re.search(r'==\d+== ([A-Z][^\n]*)\n', blk) or re.search(r'==\d+== [\d,]+ (?:\([^)]*\) )?bytes in [\d,]+ blocks are ((?:definitely|indirectly) lost)[^\n]*\n', blk)
                 if m and ('Invalid' in blk or 'uninitialised' in blk or 'lost' in blk or 'Mismatched' in blk):
                     fr = re.findall(r'(?:at|by) 0x[0-9A-F]+: (\S+) \(([^)]*)\)', blk)
                     func = next((f for f, loc in fr if loc.split(':')[0].endswith('.c') and not loc.startswith(('histmon', 'mon_', 'vg_'))), '?')
